@@ -27,7 +27,7 @@ LeafKinds     == NumKinds \cup {"Byte", "Char"}         \* scalar validators (St
 WrongTypes == {"STR", "BYTES", "NONE", "LIST", "DICT", "OBJ", "CT_OTHER"}
 IntTags   == {"MINM1", "MIN", "M1", "ZERO", "ONE", "MAX", "MAXP1", "HUGE", "NEGHUGE", "TRUE", "FALSE",
               "F1_0", "F1_5", "PINF", "NINF", "NAN", "CT_SAME", "DECIMAL"} \cup WrongTypes
-FloatTags == {"ZERO", "ONE", "M1", "F1_5", "F0_1", "FMAX", "NFMAX", "BIGINT", "SUBN", "NEGZERO", "NAN",
+FloatTags == {"ZERO", "ONE", "M1", "F1_5", "F0_1", "FULLPREC", "FMAX", "NFMAX", "BIGINT", "SUBN", "NEGZERO", "NAN",
               "OVF", "NOVF", "HUGE", "NEGHUGE", "PINF", "NINF", "TRUE", "CT_SAME", "DECIMAL"} \cup WrongTypes
 ByteTags  == {"ZERO", "ONE", "MAX", "MAXP1", "M1", "HUGE", "TRUE", "F1_0", "F1_5", "BYTES1", "BARR1", "BYTES0",
               "BYTES2", "STR", "NONE", "LIST", "DICT", "OBJ", "CT_SAME", "CT_OTHER"}
@@ -55,7 +55,7 @@ AcceptScalar(k, t) ==
             [] t \in WrongTypes -> "reject"                                        \* not an integer at all
             [] t \in {"TRUE", "FALSE", "F1_0", "CT_SAME", "DECIMAL"} -> "open")    \* bool, 1.0, c_intN(v), Decimal(1)
     [] k \in FloatKinds ->
-         (CASE t \in {"ZERO", "ONE", "M1", "F1_5", "F0_1", "FMAX", "NFMAX", "BIGINT", "SUBN", "NEGZERO", "NAN"} -> "ok"
+         (CASE t \in {"ZERO", "ONE", "M1", "F1_5", "F0_1", "FULLPREC", "FMAX", "NFMAX", "BIGINT", "SUBN", "NEGZERO", "NAN"} -> "ok"      \* FULLPREC: needs every significant digit (9 / 17) in decimal text
             [] t \in {"OVF", "NOVF", "HUGE", "NEGHUGE"} -> "reject"               \* finite, overflows to infinity
             [] t \in WrongTypes -> "reject"                                        \* no read-back could equal it
             [] t \in {"PINF", "NINF", "TRUE", "CT_SAME", "DECIMAL"} -> "open")     \* literal +-inf, bool, c_float(v)
